@@ -1,6 +1,6 @@
 module verifharness
 
-go 1.18
+go 1.21
 
 require (
 	github.com/bmatcuk/doublestar/v4 v4.8.0
